@@ -78,6 +78,8 @@ def decl_cases(maxattrs):
         for sel in sels:
             for attrs in attr_lists(ATTRS, maxattrs):
                 ents = ["x"]
+                if attrs in (("dimension(3)",), ("dimension(3)", "target"), ("save", "dimension(3)")) and typ in ("integer", "real") and sel == "":
+                    ents += ["x(5)", "a0, x(5), a2"]      # the entity's own array specification replaces the attribute's
                 if not attrs:
                     ents += ["x(3)", "a0, x, a2", "x = 1", "x(2) = [1, 2]"] if typ == "integer" and sel == "" else []
                     if typ == "character" and sel in ("", "(len=10)"):
@@ -165,11 +167,29 @@ def expected_decl(case):
     if "(" in typ and not typ.startswith(("type(", "class(")):
         sel_full = typ[typ.index("("):] + sel
     want_attrs = {norm(a).replace("INTENT(INOUT)", "INTENT(INOUT)") for a in attrs}
-    m = re.match(r"\s*x\s*(\([^)]*\))?\s*(\*\s*\d+)?\s*(=\s*(.*))?$", ent) if "," not in ent.split("=")[0] or ent.startswith("x") else None
+    items, depth, quote, cur = [], 0, "", ""
+    for ch in ent:                        # the entity x within the (possibly longer) entity list
+        if quote:
+            quote = "" if ch == quote else quote
+        elif ch in "'\"":
+            quote = ch
+        elif ch in "([":
+            depth += 1
+        elif ch in ")]":
+            depth -= 1
+        elif ch == "," and depth == 0:
+            items.append(cur)
+            cur = ""
+            continue
+        cur += ch
+    items.append(cur)
+    xent = next((i for i in items if re.match(r"\s*x\b", i)), ent)
+    m = re.match(r"\s*x\s*(\([^)]*\))?\s*(\*\s*\d+)?\s*(=\s*(.*))?$", xent)
     dims = charlen = value = None
     if m:
         dims, charlen, value = m.group(1), m.group(2), m.group(4)
     if dims:
+        want_attrs = {a for a in want_attrs if not a.startswith("DIMENSION")}
         want_attrs.add(norm("DIMENSION" + dims))
     type_str = norm(base + sel_full + (charlen or ""))
     return type_str, want_attrs, (norm(value) if (value is not None and "parameter" in attrs) else None)
@@ -197,7 +217,7 @@ def parse_hover(value):
         cur += ch
     parts.append(cur)
     name, _, val = right.partition("=")
-    return {"type": norm(parts[0]), "attrs": {norm(p) for p in parts[1:]}, "name": name.strip(), "value": norm(val) if val.strip() else None,
+    return {"type": norm(parts[0]), "attrs": [norm(p) for p in parts[1:]], "name": name.strip(), "value": norm(val) if val.strip() else None,
             "docs": (m.group("docs") or "")}
 
 
@@ -256,7 +276,8 @@ def decl_case(case, acc: Acc):
         alt = mm.group(1) + mm.group(3) + mm.group(2)
     if h["type"] != wtype and h["type"] != alt:
         problems.append(("type_or_selector", wtype, h["type"]))
-    if {_intent_norm(a) for a in h["attrs"]} != {_intent_norm(a) for a in wattrs}:
+    # a multiset: an attribute stated once is restated once
+    if sorted(_intent_norm(a) for a in h["attrs"]) != sorted(_intent_norm(a) for a in wattrs):
         problems.append(("attributes", sorted(wattrs), sorted(h["attrs"])))
     if wval is not None and h["value"] != wval:
         problems.append(("parameter_value", wval, h["value"]))
@@ -340,7 +361,7 @@ def sibling_case(case, acc: Acc):
             probs.append(("name", nm, h["name"]))
         if h["type"] != norm(typ):
             probs.append(("type_or_selector", norm(typ), h["type"]))
-        if got != want:
+        if got != want or len(set(h["attrs"])) != len(h["attrs"]):
             probs.append(("attributes", sorted(want), sorted(h["attrs"])))
         for what, w, g in probs:
             acc.violation(Violation("siblings", {**tags, "obs": what}, cs, w, g,
